@@ -23,7 +23,7 @@ PROPERTY = "C03"
 LEVEL = "exploration"
 QUICK_N = 400
 SCENARIO_TIMEOUT = 180
-PROBES = ["tie_mode", "dedup_off", "rollup_off", "decoys_off", "multi_collection", "no_prefix_multi",
+PROBES = ["tie_mode", "score_exactly_zero", "quantised_scores", "dedup_off", "rollup_off", "decoys_off", "multi_collection", "no_prefix_multi",
           "level_cols", "parquet", "spill_files>=2", "group_cut_by_chunk", "merge_chunk_small", "workers>1",
           "switches>0", "listing_permuted", "rollup_tool", "rollup_tool_multi_root", "degenerate_level",
           "conf_chunk_1", "level_batch_flush"]
@@ -60,6 +60,9 @@ def make_scenario(seed):
         for k in ("spec_extra", "label_enc", "level_cols", "n_features", "calcmass"):
             t[k] = tabs[0][k]
     tie = rng.random() < 0.3
+    score_mode = rng.choice(["plain", "plain", "zero_anchor", "zero_anchor", "quantised"])
+    if score_mode == "quantised":
+        tie = True
     conf = {
         "decoys": True if tie else rng.random() < 0.7,
         "dedup": rng.random() < 0.75,
@@ -81,6 +84,7 @@ def make_scenario(seed):
         "seed": seed,
         "tables": tabs,
         "score_seed": rng.getrandbits(32),
+        "score_mode": score_mode,
         "tie_mode": tie,
         "conf": conf,
         "format": fmt,
@@ -93,6 +97,8 @@ def make_scenario(seed):
     }
     if rollup_tool:
         scn["tie_mode"] = False
+        if scn["score_mode"] == "quantised":
+            scn["score_mode"] = "zero_anchor"
         scn["conf"].update(decoys=True, dedup=True, rollup=rng.random() < 0.5)
         scn["conf"]["prefixes"] = None
         scn["format"] = "pin"
@@ -251,7 +257,8 @@ def _degenerate(records, conf, level_cols):
 
 def run_scenario(scn, workdir):
     tables = [W.build_conf_table(p) for p in scn["tables"]]
-    scores = [W.gen_scores(t, f"{scn['score_seed']}|{i}", tie_mode=scn["tie_mode"]) for i, t in enumerate(tables)]
+    scores = [W.gen_scores(t, f"{scn['score_seed']}|{i}", tie_mode=scn["tie_mode"], mode=scn.get("score_mode", "plain"))
+              for i, t in enumerate(tables)]
     conf = scn["conf"]
     level_cols = tables[0]["meta"]["level_cols"]
     kn = scn.get("knobs") or {}
@@ -279,6 +286,8 @@ def run_scenario(scn, workdir):
         multi_groups += sum(1 for v in cnt.values() if v > 1)
     probes = {
         "tie_mode": int(scn["tie_mode"]),
+        "score_exactly_zero": int(any(v == 0.0 for sc in scores for v in sc)),
+        "quantised_scores": int(scn.get("score_mode") == "quantised"),
         "dedup_off": int(not conf["dedup"]),
         "rollup_off": int(not conf["rollup"]),
         "decoys_off": int(not conf["decoys"]),
@@ -297,7 +306,7 @@ def run_scenario(scn, workdir):
     }
     out = {
         "status": "ok",
-        "digest": digest([scn["tables"], scn["score_seed"], scn["tie_mode"], conf, scn["format"], scn.get("row_group"), kn,
+        "digest": digest([scn["tables"], scn["score_seed"], scn.get("score_mode"), scn["tie_mode"], conf, scn["format"], scn.get("row_group"), kn,
                           scn["max_workers"], world.sched_digest(sch), scn.get("glob_seed")]),
         "nontrivial": bool(probes["spill_files>=2"] or multi_groups > 0),
         "probes": probes,
@@ -305,7 +314,7 @@ def run_scenario(scn, workdir):
         "sched_digests": [world.sched_digest(sch)],
         "knobs": kn,
         "schedule": world.explicit_schedule(sch),
-        "sample": {k: scn[k] for k in ("tables", "score_seed", "tie_mode", "conf", "format", "row_group", "knobs",
+        "sample": {k: scn.get(k) for k in ("tables", "score_seed", "score_mode", "tie_mode", "conf", "format", "row_group", "knobs",
                                        "max_workers", "sched", "glob_seed")},
     }
 
@@ -494,8 +503,10 @@ def shrink_candidates(scn):
         if c.get("rollup_tool"):
             c["rollup_tool"]["roots"] = c["rollup_tool"]["roots"][:-1]
         yield c
-    if scn["tie_mode"]:
+    if scn["tie_mode"] and scn.get("score_mode") != "quantised":
         c = clone(scn); c["tie_mode"] = False; yield c
+    if scn.get("score_mode") == "zero_anchor":
+        c = clone(scn); c["score_mode"] = "plain"; yield c
     conf = scn["conf"]
     if not conf["dedup"]:
         c = clone(scn); c["conf"]["dedup"] = True; yield c
